@@ -326,7 +326,7 @@ def run_wait(case, st):
 
     if "schedule" in case:
         simenv.new_world()
-        s = vsched.Scheduler(case["schedule"])
+        s = vsched.replay_scheduler(case)
         result = harness(s)
         s.run()
         on_exec(s, result())
